@@ -308,11 +308,41 @@ def panic_entry(shape, api, mode, blocking, style, kind, keystyle="owned"):
     else:
         L.append("vcheck!(panicked == fired, M_NO_PANIC);")
         L.append("vcheck!(w().bad_release.get() == 0, M_BAD_RELEASE);")
+        L += leaked_member_probe(shape)
         L.append("vcheck!((w().held_x.get() | w().held_s.get()) & !evil_mask == 0, M_LEAK);")
         L.append("if fired { vreach!(4); }")
     L.append("vreach!(3);")
     nm = "%s__%s__%s%s" % (shape.name, api, kind, "_lent" if (style == "scoped" and keystyle == "lent") else "")
     return nm, fn_wrap(nm, L)
+
+
+# members of a nested OwnedLockCollection are reachable only by taking the collection apart
+OWNED_MEMBER_PROBES = {
+    "n_bx_ow": (["drop(coll);", "let (c0, c1) = inner.into_child();"], [("6", "c0", "lock"), ("7", "c1", "write")]),
+    "n_rt_ow": (["drop(coll);", "let (c0, c1) = inner.into_child();"], [("6", "c0", "write"), ("7", "c1", "write")]),
+    "n_ow_ow": (["let (ci, c2) = coll.into_child();", "let (c0, c1) = ci.into_child();"],
+                [("6", "c0", "lock"), ("7", "c1", "lock"), ("8", "c2", "write")]),
+}
+
+
+def leaked_member_probe(shape):
+    """evil harness, after the call: a member that is still held although its own operations never panicked is a leak
+    in any case (M_LEAK, below); on top of that it must at least be unusable - a blocking acquisition of it has to
+    panic ("killed"), it must not wait for a release that will never come (the audit lock reports M_SELF_WAIT).
+    The members of a nested owned collection can only be addressed after into_child()."""
+    if shape.name not in OWNED_MEMBER_PROBES:
+        return []
+    pre, members = OWNED_MEMBER_PROBES[shape.name]
+    L = ["if fired && (w().held_x.get() | w().held_s.get()) & !evil_mask != 0 {"]
+    L += ["\t" + x for x in pre]
+    for (i, var, api) in members:
+        L.append("\tif (w().held_x.get() | w().held_s.get()) & bit(%s) & !evil_mask != 0 {" % i)
+        L.append("\t\tlet r2 = catch_unwind(AssertUnwindSafe(|| { let g = %s.%s(key()); drop(g); }));" % (var, api))
+        L.append("\t\tvcheck!(r2.is_err(), M_FAULTED_USABLE);")
+        L.append("\t\tcore::mem::forget(r2);")
+        L.append("\t}")
+    L.append("}")
+    return L
 
 
 def indrop_entry(shape, api, mode, blocking):
